@@ -306,22 +306,32 @@ def tb3(facts, rep):
             continue
         rep.analysed_body(b)
         mapping = {}
+        # tests of the sniffed byte: a match on the char / on the byte itself (switchInt over char or u8), or == comparisons
+        tests = []   # (constant, target block, [all other targets of that test])
         for bb in b.reachable(0):
             t = b.term(bb)
-            if t['k'] == 'switch' and t.get('dty') == 'char':
+            if t['k'] == 'switch' and t.get('dty') in ('char', 'u8'):
                 for v, tgt in t['vals']:
-                    reg = eng_gd.region(b, tgt)
-                    other = set()
-                    for v2, t2 in t['vals']:
-                        if t2 != tgt:
-                            other |= eng_gd.region(b, t2)
-                    other |= eng_gd.region(b, t['else'])
-                    kinds = set()
-                    for x in reg - other:
-                        for s in b.stmts(x):
-                            if s['k'] == 'assign' and s['r']['k'] == 'agg' and s['r'].get('adt', '').endswith('fastx::Kind'):
-                                kinds.add(s['r']['variant'])
-                    mapping[chr(v)] = sorted(kinds)
+                    tests.append((v, tgt, [t2 for v2, t2 in t['vals'] if t2 != tgt] + [t['else']]))
+        for g in eng_gd.guards(b):
+            for c, tgt, other in ((g['cmp_true'], g['t'], g['f']), (g['cmp_false'], g['f'], g['t'])):
+                if c and c[0] == 'Eq':
+                    for side in (c[1], c[2]):
+                        m = re.fullmatch(r"(?:const )?(?:'(.)'|b'(.)'|(\d+)(?:_u8|_u32)?)", side)
+                        if m:
+                            ch = m.group(1) or m.group(2)
+                            tests.append((ord(ch) if ch else int(m.group(3)), tgt, [other]))
+        for v, tgt, others in tests:
+            reg = eng_gd.region(b, tgt)
+            other = set()
+            for t2 in others:
+                other |= eng_gd.region(b, t2)
+            kinds = set()
+            for x in reg - other:
+                for st in b.stmts(x):
+                    if st['k'] == 'assign' and st['r']['k'] == 'agg' and st['r'].get('adt', '').endswith('fastx::Kind'):
+                        kinds.add(st['r']['variant'])
+            mapping[chr(v)] = sorted(set(mapping.get(chr(v), [])) | kinds)
         if mapping == {'>': ['FASTA'], '@': ['FASTQ']}:
             rep.ok(rule, key, '%s:%s' % (b.file, b.line), str(mapping))
         else:
